@@ -54,6 +54,16 @@ func (c *channel) VerifTrySubmitCommandResult(respCmd *ResponseCommand) bool {
 	return c.trySubmitCommandResult(respCmd)
 }
 
+// VerifConfig returns the configuration the Server runs with.
+func (srv *Server) VerifConfig() *ServerConfig {
+	return srv.config
+}
+
+// VerifConfig returns the configuration the ServerBuilder is assembling.
+func (b *ServerBuilder) VerifConfig() *ServerConfig {
+	return b.config
+}
+
 var verifGate atomic.Value // of func(string)
 
 // VerifSetGate installs (or, with nil, removes) the function called at every
